@@ -465,4 +465,350 @@ theorem wait_after_run (s s1 : TState) (t : Nat) (r : Outcome)
     · cases hr
   · cases hr
 
+/-! ### Thread trees: delivery does not depend on thread lifetimes
+
+`Net` is the channel machine (any number of channels) together with the TREE of script
+threads: `parent[t]` started `t`, `returned` are the threads whose call has ended, `ctx[t]`
+are the cancel scopes thread `t`'s code runs under.  `nstep`/`nrun` is the code as it is (a
+spawned thread's context lies in exactly the spawner's scopes, a return cancels nothing),
+"reachable" means `nrun (ninit caps) ops = some s` for a schedule `ops` of any length over
+any tree — any depth, any number of threads, spawns, returns, waits and channel operations
+interleaved in any order the machine admits. -/
+
+/-- **The spawned thread's context is the spawner's** (any state, the code as it is): the
+    new thread lies in exactly the cancel scopes of the thread that started it, so its
+    `ctx.Done()` is ready exactly when the spawner's is — now and after any later step that
+    cancels something. -/
+theorem child_ctx_is_spawners (s s1 : Net) (p t : Nat) (h : nstep s (.spawn p) = some (s1, .spawned t)) :
+    t = s.ctx.length ∧ ctxOf s1 t = ctxOf s p ∧ s1.cancelled = s.cancelled ∧ s1.returned = s.returned := by
+  simp only [nstep, nstepWith] at h
+  split at h
+  · simp only [Bool.false_eq_true, ↓reduceIte, Option.some.injEq, Prod.mk.injEq, NObs.spawned.injEq] at h
+    obtain ⟨hs, ht⟩ := h
+    subst hs
+    subst ht
+    refine ⟨rfl, ?_, rfl, rfl⟩
+    simp [ctxOf, List.getD_eq_getElem?_getD]
+  · cases h
+
+/-- **Every thread of the tree runs under the run's context** (all schedules, all trees, the
+    code as it is): in every reachable state every existing thread — at any depth, whoever
+    of its ancestors has returned — lies in the run's cancel scope and in no other, and its
+    `ctx.Done()` is ready iff the host has cancelled the run. -/
+theorem thread_ctx_is_run_ctx (caps : List Nat) (ops : List NOp) (s : Net)
+    (h : nrun (ninit caps) ops = some s) (t : Nat) (ht : t < s.ctx.length) :
+    ctxOf s t = [0] ∧ ctxDone s t = runCancelled s := by
+  have hi := nrun_ctxInv ops _ s h (ninit_ctxInv caps)
+  have hc := ctxOf_of_inv s hi t ht
+  exact ⟨hc, by simp [ctxDone, hc, runCancelled]⟩
+
+/-- **Only the run's cancellation cuts a send/receive/range short** (all schedules, all
+    trees, the code as it is): if in a reachable state some thread's pending channel
+    operation can fail with its context's error (`abort t` is enabled) then the host has
+    cancelled the run in that schedule.  Contrapositive: as long as the host does not cancel,
+    no thread's send is ever refused and no `range` over a channel ends before the close —
+    whichever threads have returned. -/
+theorem abort_only_after_run_cancel (caps : List Nat) (ops : List NOp) (s : Net)
+    (h : nrun (ninit caps) ops = some s) (t : Nat) (r : Net × NObs)
+    (ha : nstep s (.abort t) = some r) : NOp.cancel ∈ ops := by
+  apply Classical.byContradiction
+  intro hn
+  have hc : s.cancelled = [] := by
+    rw [nrun_cancelled ops _ s h hn]; rfl
+  simp only [nstep, nstepWith] at ha
+  split at ha
+  · rename_i hg
+    simp [ctxDone, hc] at hg
+  · cases ha
+
+/-- **A parent's return changes nothing for anybody else** (any state, the code as it is):
+    let thread `p` return.  Every action `o` that does not involve `p` itself — a channel
+    operation of any other thread (its descendants included), a spawn, another return, a
+    wait, an abort, the host's cancel — is enabled after the return exactly when it was
+    enabled before it, yields the same observation and leaves the same channels (queues and
+    delivery histories), contexts and cancelled scopes. -/
+theorem parent_return_preserves_delivery (s s1 : Net) (p : Nat) (ob0 : NObs)
+    (h : nstep s (.ret p) = some (s1, ob0)) (o : NOp) (hno : involves p o = false) :
+    (nstep s1 o).map (fun r => (r.1.chans, r.1.ctx, r.1.cancelled, r.2))
+      = (nstep s o).map (fun r => (r.1.chans, r.1.ctx, r.1.cancelled, r.2)) := by
+  obtain ⟨_, _, hs1⟩ := nstep_ret_inv s s1 p ob0 h
+  subst hs1
+  cases o with
+  | chan k op =>
+    simp only [involves] at hno
+    have hl := all_live_ret_other s p (actors op) hno
+    simp only [nstep, nstepWith, hl]
+    split
+    · cases s.chans[k]? with
+      | none => rfl
+      | some c =>
+        simp only
+        cases step c op with
+        | none => rfl
+        | some r => rfl
+    · rfl
+  | spawn q =>
+    simp only [involves, beq_eq_false_iff_ne, ne_eq] at hno
+    simp only [nstep, nstepWith, live_ret_other s p q hno, Bool.false_eq_true, ↓reduceIte]
+    split
+    · simp [ctxOf]
+    · rfl
+  | ret t =>
+    simp only [involves, beq_eq_false_iff_ne, ne_eq] at hno
+    simp only [nstep, nstepWith, live_ret_other s p t hno, Bool.false_eq_true, ↓reduceIte]
+    split <;> rfl
+  | wait w t =>
+    simp only [involves, Bool.or_eq_false_iff, beq_eq_false_iff_ne, ne_eq] at hno
+    simp only [nstep, nstepWith, live_ret_other s p w hno.1, isReturned_ret_other s p t hno.2]
+    split <;> rfl
+  | abort t =>
+    simp only [involves, beq_eq_false_iff_ne, ne_eq] at hno
+    simp only [nstep, nstepWith, live_ret_other s p t hno]
+    have : ctxDone { s with returned := s.returned ++ [p] } t = ctxDone s t := rfl
+    rw [this]
+    split <;> rfl
+  | cancel => rfl
+
+/-! #### Whole schedules: returns (and waits) can be erased -/
+
+/-- a schedule without its returns and waits: every thread lives for ever -/
+def dropRets : List NOp → List NOp
+  | [] => []
+  | .ret _ :: os => dropRets os
+  | .wait _ _ :: os => dropRets os
+  | o :: os => o :: dropRets os
+
+/-- `s'` is `s` except that some threads that have returned in `s` are still alive in `s'` -/
+def SameButAlive (s s' : Net) : Prop :=
+  s'.chans = s.chans ∧ s'.parent = s.parent ∧ s'.ctx = s.ctx ∧ s'.cancelled = s.cancelled ∧
+    s'.nscopes = s.nscopes ∧ ∀ t, t ∈ s'.returned → t ∈ s.returned
+
+theorem live_of_sameButAlive (s s' : Net) (hr : SameButAlive s s') (t : Nat) (h : live s t = true) :
+    live s' t = true := by
+  obtain ⟨_, _, hc, _, _, hsub⟩ := hr
+  simp only [live, isReturned, Bool.and_eq_true, decide_eq_true_eq, Bool.not_eq_true',
+    List.contains_eq_mem, decide_eq_false_iff_not] at h ⊢
+  rw [hc]
+  exact ⟨h.1, fun hm => h.2 (hsub t hm)⟩
+
+theorem nstep_sameButAlive (s s' s1 : Net) (o : NOp) (ob : NObs) (hr : SameButAlive s s')
+    (h : nstep s o = some (s1, ob)) (hnr : ∀ t, o ≠ .ret t) (hnw : ∀ w t, o ≠ .wait w t) :
+    ∃ s1', nstep s' o = some (s1', ob) ∧ SameButAlive s1 s1' := by
+  have hlive := live_of_sameButAlive s s' hr
+  obtain ⟨hch, hpa, hcx, hca, hns, hsub⟩ := hr
+  cases o with
+  | chan k op =>
+    obtain ⟨c, c', ob', hc, hstep, hob, hs1, hl⟩ := nstepWith_chan_inv false s s1 k op ob h
+    have hl' : (actors op).all (live s') = true := by
+      simp only [List.all_eq_true] at hl ⊢
+      exact fun t ht => hlive t (hl t ht)
+    refine ⟨{ s' with chans := s'.chans.set k c' }, ?_, ?_⟩
+    · simp only [nstep, nstepWith, hl', ↓reduceIte, hch, hc, hstep, hob]
+    · rw [hs1]; exact ⟨by simp [hch], hpa, hcx, hca, hns, hsub⟩
+  | spawn p =>
+    simp only [nstep, nstepWith] at h
+    split at h
+    · rename_i hl
+      simp only [Bool.false_eq_true, ↓reduceIte, Option.some.injEq, Prod.mk.injEq] at h
+      refine ⟨{ s' with parent := s'.parent ++ [p], ctx := s'.ctx ++ [ctxOf s' p] }, ?_, ?_⟩
+      · simp only [nstep, nstepWith, hlive p hl, ↓reduceIte, Bool.false_eq_true, hcx, ← h.2]
+      · rw [← h.1]; exact ⟨hch, by simp [hpa], by simp [hcx, ctxOf], hca, hns, hsub⟩
+    · cases h
+  | ret t => exact absurd rfl (hnr t)
+  | wait w t => exact absurd rfl (hnw w t)
+  | abort t =>
+    simp only [nstep, nstepWith] at h
+    split at h
+    · rename_i hg
+      simp only [Option.some.injEq, Prod.mk.injEq] at h
+      simp only [Bool.and_eq_true] at hg
+      have hd : ctxDone s' t = true := by
+        have : ctxDone s' t = ctxDone s t := by simp [ctxDone, ctxOf, hcx, hca]
+        rw [this]; exact hg.2
+      refine ⟨{ s' with returned := s'.returned ++ [t] }, ?_, ?_⟩
+      · simp only [nstep, nstepWith, hlive t hg.1, hd, Bool.and_self, ↓reduceIte, ← h.2]
+      · rw [← h.1]
+        refine ⟨hch, hpa, hcx, hca, hns, ?_⟩
+        intro u hu
+        simp only [List.mem_append, List.mem_singleton] at hu ⊢
+        cases hu with
+        | inl hu => exact Or.inl (hsub u hu)
+        | inr hu => exact Or.inr hu
+    · cases h
+  | cancel =>
+    simp only [nstep, nstepWith, Option.some.injEq, Prod.mk.injEq] at h
+    refine ⟨{ s' with cancelled := s'.cancelled ++ [0] }, ?_, ?_⟩
+    · simp only [nstep, nstepWith, ← h.2]
+    · rw [← h.1]; exact ⟨hch, hpa, hcx, by simp [hca], hns, hsub⟩
+
+/-- **Delivery is independent of thread lifetimes** (all schedules, all trees, the code as it
+    is): take any executable schedule and erase every return (and every wait) from it — so
+    that no thread ever ends.  The erased schedule is executable too and ends with exactly the
+    same channels: the same queues, the same values accepted, dequeued and handed out, to the
+    same receivers in the same order, the same contexts and cancelled scopes.  Which threads
+    have returned, and when, decides nothing about what is delivered. -/
+theorem delivery_independent_of_returns (ops : List NOp) (s s' f : Net) (hr : SameButAlive s s')
+    (h : nrun s ops = some f) : ∃ f', nrun s' (dropRets ops) = some f' ∧ SameButAlive f f' := by
+  induction ops generalizing s s' with
+  | nil =>
+    simp only [nrun, nrunWith, Option.some.injEq] at h
+    subst h
+    exact ⟨s', rfl, hr⟩
+  | cons o os ih =>
+    simp only [nrun, nrunWith] at h
+    split at h
+    · rename_i s1 ob hst
+      cases o with
+      | ret t =>
+        obtain ⟨_, _, hs1⟩ := nstep_ret_inv s s1 t ob hst
+        have hr1 : SameButAlive s1 s' := by
+          obtain ⟨a, b, c, d, e, g⟩ := hr
+          rw [hs1]
+          exact ⟨a, b, c, d, e, fun u hu => List.mem_append_left _ (g u hu)⟩
+        simpa only [dropRets] using ih s1 s' hr1 h
+      | wait w t =>
+        have hs1 : s1 = s := by
+          simp only [nstepWith] at hst
+          split at hst
+          · simp only [Option.some.injEq, Prod.mk.injEq] at hst; exact hst.1.symm
+          · cases hst
+        rw [hs1] at h
+        simpa only [dropRets] using ih s s' hr h
+      | chan k op =>
+        obtain ⟨s1', hst', hr1⟩ := nstep_sameButAlive s s' s1 _ ob hr hst (by intro t; simp) (by intro w t; simp)
+        obtain ⟨f', hf', hrf⟩ := ih s1 s1' hr1 h
+        refine ⟨f', ?_, hrf⟩
+        simp only [dropRets, nrun, nrunWith]
+        simp only [nstep] at hst'
+        rw [hst']
+        exact hf'
+      | spawn p =>
+        obtain ⟨s1', hst', hr1⟩ := nstep_sameButAlive s s' s1 _ ob hr hst (by intro t; simp) (by intro w t; simp)
+        obtain ⟨f', hf', hrf⟩ := ih s1 s1' hr1 h
+        refine ⟨f', ?_, hrf⟩
+        simp only [dropRets, nrun, nrunWith]
+        simp only [nstep] at hst'
+        rw [hst']
+        exact hf'
+      | abort t =>
+        obtain ⟨s1', hst', hr1⟩ := nstep_sameButAlive s s' s1 _ ob hr hst (by intro t; simp) (by intro w t; simp)
+        obtain ⟨f', hf', hrf⟩ := ih s1 s1' hr1 h
+        refine ⟨f', ?_, hrf⟩
+        simp only [dropRets, nrun, nrunWith]
+        simp only [nstep] at hst'
+        rw [hst']
+        exact hf'
+      | cancel =>
+        obtain ⟨s1', hst', hr1⟩ := nstep_sameButAlive s s' s1 _ ob hr hst (by intro t; simp) (by intro w t; simp)
+        obtain ⟨f', hf', hrf⟩ := ih s1 s1' hr1 h
+        refine ⟨f', ?_, hrf⟩
+        simp only [dropRets, nrun, nrunWith]
+        simp only [nstep] at hst'
+        rw [hst']
+        exact hf'
+    · cases h
+
+/-- the same from the initial state: the run in which nobody ever returns delivers exactly
+    what the given run delivers -/
+theorem delivery_independent_of_returns_init (caps : List Nat) (ops : List NOp) (f : Net)
+    (h : nrun (ninit caps) ops = some f) :
+    ∃ f', nrun (ninit caps) (dropRets ops) = some f' ∧ f'.chans = f.chans ∧ f'.cancelled = f.cancelled := by
+  obtain ⟨f', hf', hr⟩ := delivery_independent_of_returns ops (ninit caps) (ninit caps) f
+    ⟨rfl, rfl, rfl, rfl, rfl, fun _ h => h⟩ h
+  exact ⟨f', hf', hr.1, hr.2.2.2.1⟩
+
+/-! #### Every channel of a thread tree is the channel machine -/
+
+/-- **Projection** (all schedules, all trees, both variants of the context): the state of
+    channel `k` after a schedule of the thread tree is the state the channel machine reaches
+    from the fresh channel on the operations addressed to `k`, in schedule order.  So every
+    theorem above about `run (init cap) ops` speaks about every channel of every tree. -/
+theorem net_channel_is_channel_machine (b : Bool) (caps : List Nat) (ops : List NOp) (s : Net)
+    (h : nrunWith b (ninit caps) ops = some s) (k cap : Nat) (hk : caps[k]? = some cap) :
+    ∃ c, s.chans[k]? = some c ∧ run (init cap) (chanOpsOf k ops) = some c :=
+  nrunWith_chan b ops (ninit caps) s h k (init cap) (by simp [ninit, hk])
+
+/-- **Arrival order in a thread tree**: on every channel of every tree, whoever has returned,
+    dequeued ++ queued = accepted, in order. -/
+theorem net_fifo_conservation (caps : List Nat) (ops : List NOp) (s : Net)
+    (h : nrun (ninit caps) ops = some s) (k : Nat) (c : Chan) (hc : s.chans[k]? = some c) :
+    values c.deq ++ c.buf = c.sent := by
+  have hlt : k < caps.length := by
+    have := (List.getElem?_eq_some_iff.1 hc).1
+    have hl : s.chans.length = caps.length := by
+      have : ∀ (ops : List NOp) (a b : Net), nrun a ops = some b → b.chans.length = a.chans.length := by
+        intro ops
+        induction ops with
+        | nil => intro a b h; simp only [nrun, nrunWith, Option.some.injEq] at h; subst h; rfl
+        | cons o os ih =>
+          intro a b h
+          simp only [nrun, nrunWith] at h
+          split at h
+          · rename_i a1 ob hst
+            rw [ih a1 b h]
+            cases o with
+            | chan k op =>
+              obtain ⟨_, _, _, _, _, _, hs1, _⟩ := nstepWith_chan_inv false a a1 k op ob hst
+              rw [hs1]; simp
+            | spawn p => rw [nstepWith_not_chan_chans false a a1 _ ob hst (by intro k op; simp)]
+            | ret t => rw [nstepWith_not_chan_chans false a a1 _ ob hst (by intro k op; simp)]
+            | wait w t => rw [nstepWith_not_chan_chans false a a1 _ ob hst (by intro k op; simp)]
+            | abort t => rw [nstepWith_not_chan_chans false a a1 _ ob hst (by intro k op; simp)]
+            | cancel => rw [nstepWith_not_chan_chans false a a1 _ ob hst (by intro k op; simp)]
+          · cases h
+      rw [this ops _ s h]; simp [ninit]
+    omega
+  obtain ⟨c', hc', hrun⟩ := net_channel_is_channel_machine false caps ops s h k caps[k] (List.getElem?_eq_getElem hlt)
+  rw [hc] at hc'
+  cases hc'
+  exact fifo_conservation _ _ c hrun
+
+/-- **Exactly once, in order, in a thread tree** (the channel part of C10 for nested spawns):
+    on every channel `k` of every tree — any depth, threads returning at any moment — on
+    which at most one thread iterates (`atMostOneIterator`, the guard of the recorded
+    finding), in every reachable state without a half-finished iteration step every accepted
+    value was handed out exactly once or is still queued, and every receiver saw each
+    sender's values in sending order. -/
+theorem net_exactly_once (caps : List Nat) (ops : List NOp) (s : Net)
+    (h : nrun (ninit caps) ops = some s) (k cap : Nat) (hk : caps[k]? = some cap)
+    (hg : atMostOneIterator (chanOpsOf k ops) = true) (c : Chan) (hc : s.chans[k]? = some c)
+    (hp : c.pend = []) : ExactlyOnce c ∧ ReceiverOrder c := by
+  obtain ⟨c', hc', hrun⟩ := net_channel_is_channel_machine false caps ops s h k cap hk
+  rw [hc] at hc'
+  cases hc'
+  exact C10_partial_guard cap _ hg c hrun hp
+
+/-! #### Why the context is part of the model -/
+
+/-- the smallest nested topology: the main program starts thread 1, thread 1 starts thread 2
+    (a producer) and returns; thread 2 then sends and the main program receives -/
+def nestedProducer : List NOp :=
+  [.spawn 0, .spawn 1, .ret 1, .chan 0 (.send 2 (2, 0)), .chan 0 (.recv 0), .chan 0 (.send 2 (2, 1)),
+   .chan 0 (.recv 0), .ret 2]
+
+/-- the code as it is delivers both values, and thread 2 can never be cut short -/
+example : (nrun (ninit [1]) nestedProducer).map (fun s => (s.chans.map (·.deliv), s.returned, ctxDone s 2))
+    = some ([[(0, (2, 0)), (0, (2, 1))]], [1, 2], false) := by decide
+
+/-- **With a cancel scope per spawned call the statement is false**: in the variant where a
+    returning call cancels the scope its children were started in, a schedule in which the
+    host never cancels reaches a state where a grandchild's pending send can fail with
+    "context canceled" — the value is never delivered.  (This is why `ctx` is in the model:
+    `abort_only_after_run_cancel` and `parent_return_preserves_delivery` are properties of
+    the context plumbing, not of the channels.) -/
+theorem own_scope_variant_cuts_descendants_short :
+    ∃ (ops : List NOp) (s : Net) (t : Nat), nrunWith true (ninit [1]) ops = some s ∧ NOp.cancel ∉ ops ∧
+      (nstepWith true s (.abort t)).isSome = true ∧ isReturned s t = false := by
+  refine ⟨[.spawn 0, .spawn 1, .ret 1], ?_⟩
+  cases hr : nrunWith true (ninit [1]) [.spawn 0, .spawn 1, .ret 1] with
+  | none => exact absurd hr (by decide)
+  | some s =>
+    refine ⟨s, 2, rfl, by decide, ?_, ?_⟩
+    · have : (nrunWith true (ninit [1]) [.spawn 0, .spawn 1, .ret 1]).map (fun s => (nstepWith true s (.abort 2)).isSome) = some true := by decide
+      rw [hr] at this
+      simpa using this
+    · have : (nrunWith true (ninit [1]) [.spawn 0, .spawn 1, .ret 1]).map (fun s => isReturned s 2) = some false := by decide
+      rw [hr] at this
+      simpa using this
+
 end Risor.C10
